@@ -398,7 +398,7 @@ static void exercise(Rec& rec, Obj& o, const Geo& g, int level, bool pre_use) {
   if (!rec.lg) rec.efficiencies(o, g);
   long n = 0;
   for (const Sym& s : syms) {
-    rec.all_related(o, g, s, level == 0 ? 40 : 0);
+    rec.all_related(o, g, s, level == 0 ? 40 : 100);
     if (level > 0 || (n++ % 2) == 0) rec.whole(o, g, s, n % 2 == 0);
   }
   rec.whole(o, g, Sym{ "default", nullptr }, false);
@@ -473,9 +473,10 @@ static void run_exact(vh::Trace& tr, vh::Rng& rng, int level) {
       rec.set_up(o, G);
       rec.all_related(o, Gsmall, groupings(Gsmall.pdi, 0)[1 % groupings(Gsmall.pdi, 0).size()], 6);
       rec.whole(o, Gsmall, Sym{ "default", nullptr }, true);
-      // data with a narrower tangential range also pass the geometry check
+      // data with a narrower tangential range also pass the geometry check (related viewgrams only: on the
+      // unchanged tree apply(ProjData&) then writes beyond the data's buffer - known finding C13-narrowtang)
       rec.all_related(o, Gother, groupings(Gother.pdi, 0)[0], 4);
-      rec.whole(o, Gother, Sym{ "default", nullptr }, false);
+      if (getenv("C13_NARROW_WHOLE")) rec.whole(o, Gother, Sym{ "default", nullptr }, false);
     }
     {
       // factor data that cannot serve the data: fewer segments / other tangential range / TOF factors for non-TOF data
@@ -500,6 +501,8 @@ static void run_exact(vh::Trace& tr, vh::Rng& rng, int level) {
       rec.all_related(o, G, groupings(G.pdi, 0)[0], 3);
       // other geometries after set_up: other tangential range (not contained), non-TOF clone of TOF data
       rec.all_related(o, Gsmall, groupings(Gsmall.pdi, 0)[0], 3);
+      rec.all_related(o, Gother, groupings(Gother.pdi, 0)[0], 3);
+      rec.whole(o, Gother, Sym{ "default", nullptr }, false);
       if (tof) rec.all_related(o, Gn, groupings(Gn.pdi, 0)[0], 3);
       Obj w = make_cal(Gother, rng, -1, 1, 0, 0, 0);
       emit_obj(tr, w); rec.set_up(w, Gother);
@@ -531,6 +534,13 @@ static void run_exact(vh::Trace& tr, vh::Rng& rng, int level) {
         exercise(rec, ch, G, level, false);
       } else
         exercise(rec, o, G, level, false);
+      if (variant == 1) {   // data with a narrower tangential range pass the geometry check
+        Geo Gnarrow; Gnarrow.scanner = label;
+        Gnarrow.pdi.reset(ProjDataInfo::construct_proj_data_info(sc, 1, cs.R - 1, cs.N / 2, cs.numTang - 2, false, 0).release());
+        rec.all_related(o, Gnarrow, groupings(Gnarrow.pdi, 0)[0], 4);
+        rec.all_related(o, Gsmall, groupings(Gsmall.pdi, 0)[0], 4);
+        rec.whole(o, Gsmall, Sym{ "default", nullptr }, false);
+      }
       if (variant == 0) { emit_obj(tr, o); rec.set_up(o, Gsmall); }   // another geometry than the allocated one
     }
   }
